@@ -45,7 +45,8 @@ from props import c01_flavours as fl
 from props import c01_exc as xc
 
 ID = "C01"
-RULE = ("expr: exhaustive cross 35 dunders x operand kinds x length pairs x call route (direct dunder / operator "
+RULE = ("operand objects between iterable and scalar (indexable, no __iter__: Vec2, Indexable, LenIndexable, Poly, TableLookup; predicates observed with isinstance/iter/hasattr, classified by the model) on the other side of all 32 binary dunders x routes, numeric vector arithmetic, nested; broadcast functions x 9 user subclasses of tuple/list/set/frozenset/deque + a user Sequence by position and keyword (observation: type(res) is type(arg)); "
+        "expr: exhaustive cross 35 dunders x operand kinds x length pairs x call route (direct dunder / operator "
         "syntax) over symbolic tracer elements (non-commutative, so operand order is visible), the same over "
         "numeric element families; flavour cross: ~120 operand flavours (every itertools / builtin lazy iterator, finite and "
         "endless, raw, inside a Stream, through the lazy_itertools wrappers, behind Stream subclasses / tee copies) x position "
